@@ -62,7 +62,8 @@ def check_scripts(env, rep, prop, scripts, oracle, nontrivial=None):
         # the oracles attribute outputs to inputs by tick: two inputs at one tick (a scripted datagram and a rule's
         # reaction colliding) cannot be told apart, such a run is judged only for escaping exceptions -- except in
         # the scenarios that put several inputs into one callback / one tick on purpose
-        designed_ticks = {e[1] for e in script["events"] if e[0] == "N" or (e[0] == "S" and len(e) > 13)}
+        designed_ticks = {e[1] for e in script["events"] if e[0] == "N" or (e[0] == "S" and len(e) > 13)
+                          or (e[0] == "X" and len(e) > 3 and e[3])}
         ticks = [int(c.split("@")[1].split(":")[0]) for c in res["concrete"]]
         accidental = any(ticks.count(t) > 1 and t not in designed_ticks for t in set(ticks))
         v = "" if accidental else oracle(res)
@@ -323,6 +324,7 @@ def oracle_c14(res):
     events.sort(key=lambda e: (e[0], e[1]))
     open_ex = {}          # remote -> mid
     order = {}            # remote -> list of request numbers in first-transmission order
+    intervals = {}        # remote -> [[opened, closed|None]] of the CON exchanges with that endpoint
     for (t, _, kind, x, first) in events:
         if kind == "send":
             if not first and open_ex.get(x["remote"]) != x["mid"]:
@@ -333,14 +335,19 @@ def oracle_c14(res):
                     return (f"two-open: CON mid {x['mid']} first sent to {x['remote']} at {t} while mid "
                             f"{open_ex[x['remote']]} is still unacknowledged")
                 open_ex[x["remote"]] = x["mid"]
+                intervals.setdefault(x["remote"], []).append([t, None])
                 if 1 <= x["code"] < 32:
                     order.setdefault(x["remote"], []).append(x["body"] - 100)
         elif kind == "ack":
             if open_ex.get(x[0]) == x[1]:
                 del open_ex[x[0]]
+                intervals[x[0]][-1][1] = t
         elif kind in ("err", "giveup"):
-            open_ex.pop(x, None)
+            if open_ex.pop(x, None) is not None:
+                intervals[x][-1][1] = t
         elif kind == "shut":
+            for rem in open_ex:
+                intervals[rem][-1][1] = t
             open_ex.clear()
     # FIFO per remote among confirmable requests
     for remote, seq in order.items():
@@ -353,6 +360,21 @@ def oracle_c14(res):
     for r, ev in subs.items():
         if (100 + r) not in sent_bodies and r not in fl and r not in cancelled:
             return f"forgotten: request {r} was neither transmitted nor failed"
+    # exchanges with other endpoints never delay a message: a confirmable request to an endpoint with which no
+    # exchange is open (endpoints as the script distinguishes them) is on the wire at its submission tick
+    for r, ev in subs.items():
+        if ev[7] is True and ev[6] in (None, "CON") and not ev[4]:
+            t0, remote = ev[1], ev[3]
+            busy = any(a <= t0 and (b is None or b >= t0) for (a, b) in intervals.get(remote, []) if a != t0)
+            earlier_same_tick = any(subs[q][1] == t0 and subs[q][3] == remote and q < r for q in subs)
+            shut = [t for (t, k, f) in ins if k == "X" and t <= t0]
+            send_failed = any(t == t0 and rem == remote for (t, rem) in res.get("failed_sends", []))
+            if busy or earlier_same_tick or shut or send_failed or r in cancelled:
+                continue
+            ts = [s["tick"] for s in sends(res) if s["body"] == 100 + r and 1 <= s["code"] < 32]
+            if not ts or ts[0] != t0:
+                return (f"delayed-by-other-endpoint: CON request {r} to endpoint {remote} submitted at {t0} with no "
+                        f"exchange open to that endpoint was first transmitted at {ts[:1] or 'never'}")
     # NON and other remotes are not delayed: a NON request is on the wire at its submission tick
     for r, ev in subs.items():
         if ev[7] is False and ev[6] is None and not ev[4]:
@@ -404,6 +426,7 @@ def oracle_c04(res, EL=None):
                 if len(here) != 1:
                     return f"not-delivered: request mid {mid} from {remote} at {t} delivered {len(here)} times"
                 epoch_start = t
+                first_type = f[2]
             else:
                 if here:
                     return (f"executed-twice: duplicate of mid {mid} from {remote} at {t} "
@@ -419,6 +442,12 @@ def oracle_c04(res, EL=None):
                                     f"{[o['raw'] for o in out_now]} instead of a repetition of {prior[-1]['raw']}")
                     elif out_now:
                         return f"dup-reply-early: duplicate CON mid {mid} at {t} answered although no ACK was sent yet"
+                    elif first_type == "CON" and t > epoch_start + cfg["emptyAckDelay"] and not shut:
+                        # by now the request must have been acknowledged one way or the other (piggy-backed response,
+                        # empty ACK of the timer or of a superseding request), so there is something to repeat
+                        return (f"dup-unanswered: duplicate CON mid {mid} at {t}, {t - epoch_start} ticks after the "
+                                f"first arrival, got no answer: no acknowledgement under that message ID was ever "
+                                f"sent to {remote}")
                 else:
                     if out_now:
                         return f"dup-non-output: duplicate NON mid {mid} at {t} produced output {[o['raw'] for o in out_now]}"
@@ -734,6 +763,8 @@ def oracle_c18(res):
         return f"shutdown-raised: {info['error']}"
     if info.get("done_tick") is None:
         return "shutdown-hangs: Context.shutdown() did not complete"
+    if len(shut) > 1 and info.get("again_done_tick") is None:
+        return "shutdown-hangs: a second Context.shutdown() did not complete"
     if info["done_tick"] - ts > 3 * M:
         return f"shutdown-slow: took {info['done_tick'] - ts} ticks (SHUTDOWN_TIMEOUT is 3 s)"
     late = [s for s in sends(res) if s["tick"] > info["done_tick"]]
